@@ -157,7 +157,7 @@ class Evaluator:
                 ent[0] |= body
                 ent[2].add((x, h))
             for h, ent in L.items():
-                ent[1] = any(self.body.blocks[b]["term"]["k"] == "yield" for b in ent[0])
+                ent[1] = all(self._await_back_edge(x) for (x, _h) in ent[2])
             # precompute "can leave loop without a back edge into h"
             for h, ent in L.items():
                 body, _, backs = ent
@@ -178,6 +178,20 @@ class Evaluator:
                 ent.append(ok)
             self._loops = L
         return self._loops
+
+    def _await_back_edge(self, x):
+        """The back edge leaves the resume side of a `yield` (the Pending arm of an .await poll loop)."""
+        for _ in range(4):
+            t = self.body.blocks[x]["term"]
+            if t["k"] == "yield":
+                return True
+            if t["k"] != "goto":
+                return False
+            preds = self.cfg.pred[x]
+            if len(preds) != 1:
+                return False
+            x = preds[0]
+        return False
 
     # ---- places ----------------------------------------------------------------
     def canon(self, st, l, projs):
